@@ -104,6 +104,7 @@ func c08Texts(r *rng) [][]byte {
 
 func cmdC08(seed uint64, tier, outdir string) {
 	dumpTables(outdir)
+	c08MatchOracle(seed, tier, outdir)
 	r := newRng(seed, "c08")
 	texts := c08Texts(r)
 	cw := mustCreate(outdir, "reader.cases")
@@ -146,4 +147,76 @@ func cmdC08(seed uint64, tier, outdir string) {
 	}
 	cw.close()
 	iw.close()
+}
+
+// ---- Match-level oracle: MatchFrom under adversarial readers == Match ----
+
+func sameResults(a, b classifier.Results) bool { return fmtResults(a) == fmtResults(b) }
+
+func c08MatchOracle(seed uint64, tier, outdir string) {
+	r := newRng(seed, "c08-match")
+	all := embeddedDocs()
+	docs := sampleDocs(r, all, 12, "License/MIT/license.txt", "License/Apache-2.0/license.txt")
+	bc := buildCorpus(0.8, docs)
+	vw := mustCreate(outdir, "matchfrom.verdicts")
+	cw := mustCreate(outdir, "matchfrom.cases")
+	bodies := [][]byte{}
+	for _, d := range docs[:6] {
+		t := string(d.text)
+		// inject multi-byte runes and a truncated tail
+		t = strings.Replace(t, "the", "thé", 3) + " — “quoted” 日本 xy\xc3"
+		bodies = append(bodies, []byte(t), append([]byte(oovBlock(r, 5, 1)+"\n"), d.text...))
+	}
+	step := 97
+	if tier == "thorough" {
+		step = 5
+	}
+	for bi, body := range bodies {
+		ref := bc.c.Match(body)
+		nt := 0
+		if len(ref.Matches) > 0 {
+			nt = 1
+		}
+		for pad := 0; pad <= 2*1024+8; pad++ {
+			near := pad%1020 <= 5 || pad%1020 >= 1015 || (pad+len(body))%1020 <= 3
+			if !near && pad%step != bi%step {
+				continue
+			}
+			data := append([]byte(strings.Repeat(" ", pad)), body...)
+			cw.printf("pad=%d body=%d mode=reader\n", pad, bi)
+			got, err := bc.c.MatchFrom(&advReader{data: data, failAt: -1, r: r, mode: r.intn(4)})
+			if err != nil || !sameResults(got, ref) {
+				vw.printf("VIOL - MatchFrom(pad %d + body %d) = %s err=%v ; Match(body) = %s\n", pad, bi, fmtResults(got), err, fmtResults(ref))
+			} else {
+				vw.printf("OK %d\n", nt)
+			}
+		}
+		// faults: error and no matches
+		nf := 12
+		if tier == "thorough" {
+			nf = 120
+		}
+		for k := 0; k < nf; k++ {
+			fa := r.intn(len(body) + 1)
+			if k == 0 {
+				fa = 0
+			} else if k == 1 {
+				fa = len(body)
+			}
+			wrap := r.chance(1, 2)
+			cw.printf("fail=%d body=%d wrap=%v\n", fa, bi, wrap)
+			got, err := bc.c.MatchFrom(&advReader{data: body, failAt: fa, r: r, mode: r.intn(4), wrapEOF: wrap})
+			bad := err == nil || len(got.Matches) != 0 || got.TotalInputLines != 0
+			if !bad && !wrap && !errors.Is(err, errInjected) {
+				bad = true
+			}
+			if bad {
+				vw.printf("VIOL - reader fails after %d bytes (wrapEOF=%v): MatchFrom returned %s err=%v\n", fa, wrap, fmtResults(got), err)
+			} else {
+				vw.printf("OK 1\n")
+			}
+		}
+	}
+	vw.close()
+	cw.close()
 }
